@@ -34,5 +34,7 @@ def main():
         print({k: v for k, v in e.items() if k not in ("thread", "graph_preds")})
     v, c = oracles.c01_check(nodes, r["events"]); print("c01", v, c)
     v, c = oracles.single_final_state(r); print("single-final-state", v, c)
-    import os; sys.stdout.flush(); os._exit(0)
+    import os; sys.stdout.flush()
+    vlib._cleanup_scratch()      # os._exit skips atexit: remove the scratch / shadow roots this process owns (if any)
+    os._exit(0)
 main()
